@@ -221,6 +221,12 @@ def tlv_end(data, pos=0):
 
 def event_features(ev):
     f = {'op': ev['op']}
+    if ev['op'] == 'hist':
+        ok = [k for k, s_ in enumerate(ev['sts']) if s_ == 'ok']
+        f['differing'] = sorted({ev['labels'][k].split(':')[0] for k in ok
+                                 if ev['ders'][k] != ev['ders'][ok[0]] or ev['cers'][k] != ev['cers'][ok[0]]}) if ok else []
+        f['statuses'] = sorted(set(ev['sts']))
+        f['failing'] = sorted({ev['labels'][k].split(':')[0] for k, s_ in enumerate(ev['sts']) if s_ != ev['sts'][0]})
     for k in ('codec', 'def', 'chunk', 'rules', 'why', 'st', 'exc', 'guided', 'proj', 'cls', 'mode', 'via', 'rw', 'depth', 'sts', 'excs', 'path'):
         if k in ev:
             f[k] = ev[k]
@@ -248,6 +254,13 @@ def add_selftests(traces, k=5):
                 w = c['ev'][i]['wire']
                 w[-1] = (w[-1] + 1) % 256
                 c['ev'] = [c['ev'][i]]
+                c['id'] = SELFTEST_BASE + len(out)
+                out.append(c)
+                break
+            if ev['op'] == 'hist' and len(ev['ders']) >= 2 and ev['sts'][0] == 'ok' and ev['sts'][1] == 'ok' and len(ev['ders'][1]) >= 2:
+                c = json.loads(json.dumps(t))
+                c['ev'] = [c['ev'][i]]
+                c['ev'][0]['ders'][1][-1] = (c['ev'][0]['ders'][1][-1] + 1) % 256
                 c['id'] = SELFTEST_BASE + len(out)
                 out.append(c)
                 break
@@ -315,6 +328,13 @@ def _ev_brief(ev):
     if ev['op'] == 'enc':
         return 'encode %s def=%s chunk=%s -> %s' % (ev['codec'], ev.get('def'), ev.get('chunk'),
                                                     core.hexs(ev['wire'])[:80] if ev['st'] == 'ok' else ev.get('exc'))
+    if ev['op'] == 'hist':
+        ok = [k for k, s_ in enumerate(ev['sts']) if s_ == 'ok']
+        diff = [ev['labels'][k] for k in ok if ev['ders'][k] != ev['ders'][ok[0]] or ev['cers'][k] != ev['cers'][ok[0]]] if ok else []
+        return 'histories %s: status %s; differing from the first: %s (first DER %s)' % (
+            ev['labels'], sorted(set(ev['sts'])), diff, core.hexs(ev['ders'][0])[:60])
+    if ev['op'] == 'same':
+        return '%s: %s vs %s' % (ev.get('path'), core.hexs(ev['a'])[:60], core.hexs(ev['b'])[:60])
     if ev['op'] == 'pfxs':
         return 'prefixes of %s by %s guided=%s via=%s -> %s' % (core.hexs(ev['wire'])[:80], ev['rules'], ev['guided'], ev['via'],
                                                              [x for x in zip(range(len(ev['sts'])), ev['sts'], ev['excs']) if x[1] != 'underrun'][:6])
